@@ -126,3 +126,13 @@ func vSkipKnown(id string) bool { return false }
 func vCRC(b []byte) uint32 { return crc32.ChecksumIEEE(b) }
 
 func vCRCFrom(crc uint32, b []byte) uint32 { return crc32.Update(crc, crc32.IEEETable, b) }
+
+// vParam is a concrete harness parameter (bound), set per tier by the check driver.
+func vParam(name string, def int) int {
+	if s, ok := vState.env["param."+name]; ok {
+		n := 0
+		fmt.Sscan(s, &n)
+		return n
+	}
+	return def
+}
